@@ -39,7 +39,9 @@ def build_design(s, shape, gated, enw=1, en_src='input', late=False):
     a = s.wire('a', w)
     ins = {'a': a}
     en = {}
-    info = {'ins': ins, 'en': en, 'gated_boxes': [], 'pending': [], 'drvname': {}}
+    info = {'ins': ins, 'en': en, 'gated_boxes': [], 'pending': [], 'drvname': {}, 'nobase': en_src == 'input-nobase'}
+    if en_src == 'input-nobase':
+        en_src = 'input'
 
     def gate(box, name, enable_wire, base=None, drvname=None):
         info['drvname'][name] = drvname or name
@@ -47,7 +49,10 @@ def build_design(s, shape, gated, enw=1, en_src='input', late=False):
             # the driver is assigned only after a first simulator has been obtained (see run)
             info['pending'].append((box, drvname or name, enable_wire))
         elif gated:
-            box.clockDriver = ClockDriver(drvname or name, base=(base.clockDriver if base is not None else s.clockDriver), enable=enable_wire)
+            if info.get('nobase'):
+                box.clockDriver = ClockDriver(drvname or name, enable=enable_wire)         # a gated driver built without naming a base
+            else:
+                box.clockDriver = ClockDriver(drvname or name, base=(base.clockDriver if base is not None else s.clockDriver), enable=enable_wire)
         en[name] = enable_wire
         info['gated_boxes'].append((name, box))
 
@@ -423,6 +428,8 @@ def cfgs(tier):
     out.append(('block enable=combinational function of a base-domain register', {'shape': 'block', 'enw': 1, 'en_src': 'combbase'}))
     out.append(('fsm enable=2-bit combinational function of a register of the gated domain', {'shape': 'fsm', 'enw': 2, 'en_src': 'comb'}))
     out.append(('only-gated enable=input', {'shape': 'only-gated', 'enw': 1, 'en_src': 'input'}))
+    out.append(('block enable=input, gated driver constructed without a base', {'shape': 'block', 'enw': 1, 'en_src': 'input-nobase'}))
+    out.append(('only-gated enable=input, gated driver constructed without a base', {'shape': 'only-gated', 'enw': 1, 'en_src': 'input-nobase'}))
     out.append(('block enable=output of a base-domain register that nothing else reads', {'shape': 'block', 'enw': 1, 'en_src': 'regdirect'}))
     out.append(('block enable=2-bit output of a base-domain register that nothing else reads', {'shape': 'multibit', 'enw': 2, 'en_src': 'regdirect'}))
     out.append(('gated-first (gated block instantiated before the base-domain registers, ungated derived driver last) enable=input', {'shape': 'gated-first', 'enw': 1, 'en_src': 'input'}))
